@@ -501,6 +501,21 @@ class Driver:
         if kind == "update":
             if not props:
                 return False
+            locs = [(pg, nm) for pg, t in hm["tables"].items() for nm in t["loc"] if len(t["loc"][nm])]
+            if locs and rng.random() < 0.2:
+                # corrected depths: the location column of a table is re-assigned (same length, slightly shifted)
+                pg, nm = rng.choice(locs)
+                old = hm["tables"][pg]["loc"][nm]
+                vals = (np.asarray(old, dtype=float) + 0.03125).astype("float32").astype(float)
+                d = self.data(u, nm)
+                try:
+                    d.values = vals.copy()
+                except Exception as exc:  # noqa: BLE001
+                    self.refuse(kind, exc)
+                    return False
+                hm["tables"][pg]["loc"][nm] = vals
+                rec.see("location-columns-reassigned")
+                return True
             pg, nm = rng.choice(props)
             old = hm["tables"][pg]["props"][nm]
             vals = m.fresh(len(old), rng, kind=kind_of_values(old))
@@ -679,6 +694,16 @@ class Driver:
                 if x in members:
                     members[x]["props"][new] = vals[pos: pos + n]
                 pos += n
+            # the table object the user still holds shows the new column as it was handed over, row for row
+            try:
+                got = np.asarray(tab.depth_table_by_name(new))
+                names = got.dtype.names or ()
+                colv = np.asarray(got[new], dtype=float) if new in names else None
+                rec.check("C04.table", colv is not None and eq(colv, vals), op=kind, cls="held-table", attr="column-after-push", detail=f"column {new!r} pushed as {short(repr(vals.tolist()), 120)}; the same table object now shows {None if colv is None else short(repr(colv.tolist()), 120)}")
+            except Exception as exc:  # noqa: BLE001
+                if not exc_origin(exc)[0]:
+                    raise
+                rec.see("held-table-read-refused:" + type(exc).__name__)
             return True
         if kind == "copy_group":
             from geoh5py.workspace import Workspace
